@@ -5,7 +5,9 @@
    formal_lawsT / formal_pointwise: soundness of the decision procedure; response_is_ilt; ic_start; continuity;
    causal_response); #print axioms audit.
 2. On the real Lcapy, for generated netlists (random R/C/L/V/I/E/G/F/H/TF netlists with one or two reactive
-   elements; series / parallel RLC with chosen real, complex-conjugate and repeated poles; cascades of sections
+   elements; series / parallel RLC with chosen real, complex-conjugate and repeated poles; REPEATED complex-conjugate
+   poles (two identical underdamped RLC sections through an ideal buffer; RLC driven at its own complex natural
+   frequency) -- every run starts with this family; cascades of sections
    isolated by controlled sources; coupled inductors; ideal transformers; dc-driven circuits with a switch operated at
    t = 0, converted by `convert_IVP`) x source waveforms (step, dc, ac, exponential, ramp, t e^{-at}, damped sine,
    delayed step / exponential, impulse, delayed impulse; rates sometimes equal to a natural frequency) x with / without
@@ -18,7 +20,9 @@
        initial values: no impulse => capacitor voltage / inductor flux linkage at 0+ = state at 0- (`td.state`); causality
        (`td.causal`); results of an initial-value problem carry the t >= 0 condition; switched circuits: the initial
        conditions written by `convert_IVP(0)` against the dc solution of the pre-switch circuit computed by the Lean C01
-       model (`mna.solve dc`), and the response of the converted circuit against the laws FROM THAT STATE; a returned `nan`;
+       model (`mna.solve dc`), and the response of the converted circuit against the laws FROM THAT STATE; a returned `nan` (only when the C01 model
+       finds the netlist solvable: ivp system non-singular and, for whole-axis dc / ac sources without initial conditions,
+       the pre-zero steady-state system non-singular);
      * CORRESPONDENCE: the C01 model (front-end + MNA stamps + checked solver, ivp analysis at a random rational
        point s, sources = transforms of the raw waveforms) against the formal transform `L` of Lcapy's signals, and
        the s-domain spec `Laws .ivp` evaluated on those transforms (`td.model`).
@@ -188,8 +192,9 @@ def rat(x):
     return '(%d/%d)' % (x.numerator, x.denominator) if x.denominator != 1 else ('(%d)' % x.numerator if x < 0 else '%d' % x.numerator)
 
 
-def waveform(rng, kinds, rates):
-    """-> dict(kind, args (Lcapy text after the nodes), items (model), causal)"""
+def waveform(rng, kinds, rates, force=None):
+    """-> dict(kind, args (Lcapy text after the nodes), items (model), causal).
+    force = (kind, a, w): that kind with damping a and angular frequency w (resonant drive at a complex natural frequency)"""
     A = sv(rng)
     kind = rng.choice(kinds)
     a = rng.choice(rates) if rates and rng.random() < 0.4 else Fraction(rng.choice([1, 1, 2, 3, 4, 1]), rng.choice([1, 1, 2]))
@@ -199,6 +204,8 @@ def waveform(rng, kinds, rates):
     if (a * d * 4).denominator != 1:
         d = Fraction(1)
     w = Fraction(rng.choice([1, 2, 3]))
+    if force is not None:
+        kind, a, w = force
     h = Fraction(A) / 2
     if kind == 'step':
         return {'kind': kind, 'args': 'step %s' % fs(A), 'items': ['ep %s 0 0 0' % fstr(A)], 'causal': True}
@@ -229,6 +236,9 @@ def waveform(rng, kinds, rates):
         # A e^{-at} sin(wt) u(t) = A/(2j) e^{(-a+jw)t} - A/(2j) e^{(-a-jw)t}
         its = ['ep %s 0 %s 0' % (gq((Fraction(0), -h)), gq((-a, w))), 'ep %s 0 %s 0' % (gq((Fraction(0), h)), gq((-a, -w)))]
         return {'kind': kind, 'args': '{%s*exp(-%s*t)*sin(%s*t)*u(t)}' % (rat(A), rat(a), rat(w)), 'items': its, 'causal': True}
+    if kind == 'dcos':
+        its = ['ep %s 0 %s 0' % (fstr(h), gq((-a, w))), 'ep %s 0 %s 0' % (fstr(h), gq((-a, -w)))]
+        return {'kind': kind, 'args': '{%s*exp(-%s*t)*cos(%s*t)*u(t)}' % (rat(A), rat(a), rat(w)), 'items': its, 'causal': True}
     if kind == 'cosu':
         its = ['ep %s 0 %s 0' % (fstr(h), gq((Fraction(0), w))), 'ep %s 0 %s 0' % (fstr(h), gq((Fraction(0), -w)))]
         return {'kind': kind, 'args': '{%s*cos(%s*t)*u(t)}' % (rat(A), rat(w)), 'items': its, 'causal': True}
@@ -339,6 +349,67 @@ def gen_series_rlc(rng, ic, kinds):
         else:
             b.react('C', nn, c)
     return b.case('series-rlc:' + pk[0], pk[0])
+
+
+def rlc_section(b, rng, a, out, pk, l=None):
+    """series R-L-C from the driven node `a` to ground, output across the capacitor (node `out`); natural
+    frequencies pk = ('complex', re, im)"""
+    sm, pr = sum_prod(pk)
+    l = l or Fraction(1)
+    r = -sm * l
+    c = 1 / (l * pr)
+    m1, m2 = out + 'a', out + 'b'
+    if r != 0:
+        b.add('R', [a, m1], r)
+    else:
+        m1 = a
+    b.react('L', [m1, out] if rng.random() < 0.7 else [out, m1], l)
+    b.react('C', [out, '0'] if rng.random() < 0.7 else ['0', out], c)
+
+
+def pick_complex(rng, damped=None):
+    re = -Fraction(rng.randint(0 if damped is None else 1, 3), rng.choice([1, 2]))
+    if damped is False:
+        re = Fraction(0)
+    return ('complex', re, Fraction(rng.randint(1, 3), rng.choice([1, 2])))
+
+
+def gen_repeated_complex(rng, ic, kinds, variant=None):
+    """REPEATED complex-conjugate natural frequencies (a +- jb of order 2) over the Gaussian rationals:
+      cascade  : two identical underdamped series-RLC sections separated by an ideal buffer `E 4 0 3 0 gain`
+      resonant : an underdamped (or lossless) series / parallel RLC driven at its own complex natural frequency
+                 (A e^{at} sin / cos(bt) u(t));  the response contains t e^{at} cos/sin(bt)"""
+    variant = variant or rng.choice(['cascade', 'resonant', 'resonant', 'resonant-parallel'])
+    sym_was, B.symbolic = B.symbolic, False     # a symbolic value would be substituted at exactly the degenerate point (0/0)
+    try:
+        if variant == 'cascade':
+            pk = pick_complex(rng, damped=True)
+            b = B(rng, ic, kinds)
+            b.src('V', ['1', '0'] if rng.random() < 0.7 else ['0', '1'])
+            l = rng.choice([Fraction(1), Fraction(1, 2), Fraction(2)])
+            rlc_section(b, rng, '1', '3', pk, l)
+            b.add('E', ['4', '0', '3', '0'], Fraction(1) if rng.random() < 0.6 else sv(rng))
+            rlc_section(b, rng, '4', '6', pk, l if rng.random() < 0.5 else rng.choice([Fraction(1), Fraction(1, 2), Fraction(2)]))
+            return b.case('repeated-complex:cascade', 'repeated-complex')
+        pk = pick_complex(rng)
+        a, w = -pk[1], pk[2]
+        wf = waveform(rng, kinds, [], force=(('cosu' if rng.random() < 0.5 else 'dsin') if a == 0 else rng.choice(['dsin', 'dsin', 'dcos']), a, w))
+        if variant == 'resonant':
+            b = B(rng, ic, kinds)
+            b.src('V', ['1', '0'] if rng.random() < 0.7 else ['0', '1'], wf)
+            rlc_section(b, rng, '1', '3', pk, rng.choice([Fraction(1), Fraction(1, 2), Fraction(2)]))
+            return b.case('repeated-complex:resonant-series', 'repeated-complex')
+        sm, pr = sum_prod(pk)
+        c = rng.choice([Fraction(1), Fraction(1, 2), Fraction(1, 4)])
+        b = B(rng, ic, kinds)
+        b.src('I', ['1', '0'] if rng.random() < 0.5 else ['0', '1'], wf)
+        if sm != 0:
+            b.add('R', ['1', '0'], 1 / (-sm * c))
+        b.react('L', ['1', '0'] if rng.random() < 0.5 else ['0', '1'], 1 / (c * pr))
+        b.react('C', ['1', '0'] if rng.random() < 0.5 else ['0', '1'], c)
+        return b.case('repeated-complex:resonant-parallel', 'repeated-complex')
+    finally:
+        B.symbolic = sym_was
 
 
 def gen_parallel_rlc(rng, ic, kinds):
@@ -567,8 +638,10 @@ def gen_case(rng):
     whole = (not ic) and rng.random() < 0.2
     kinds = WHOLE_KINDS if whole else CAUSAL_KINDS
     tmpl = rng.choice(['random1', 'random1', 'random1', 'random2', 'series', 'series', 'parallel', 'cascade', 'cascade',
-                       'coupled', 'coupled', 'transformer'])
-    if tmpl == 'random1':
+                       'coupled', 'coupled', 'transformer', 'repeated-complex'])
+    if tmpl == 'repeated-complex':
+        c = gen_repeated_complex(rng, ic, kinds)
+    elif tmpl == 'random1':
         c = gen_random(rng, ic, kinds, 1)
     elif tmpl == 'random2':
         c = gen_random(rng, ic, kinds, 2)
@@ -610,11 +683,12 @@ def run(chk, replay=None):
     tsym = lt.sympy
     state.current_sign_convention = 'passive'
 
-    ncases = 110 if quick else 900
-    budget = 130 if quick else 1000          # seconds for the generated cases
+    ncases = 100 if quick else 900
+    budget = 105 if quick else 1000          # seconds for the generated cases
     chk.coverage['rule'] = ('each case = netlist x source waveforms x initial conditions: templates random-1-reactive / random-2-reactive '
                             '(gen_netlist with R,C,L,V,I,E,G,F,H,TF), series / parallel RLC with chosen poles (real, complex-conjugate over the '
-                            'Gaussian rationals, repeated), cascades isolated by E/G/F/H (repeated poles across sections), coupled inductors '
+                            'Gaussian rationals, repeated), repeated complex-conjugate natural frequencies (identical RLC sections through a buffer; RLC driven at '
+                            'its own complex natural frequency; the first 6 / 60 cases of every run), cascades isolated by E/G/F/H (repeated poles across sections), coupled inductors '
                             '(K, both initial currents), ideal transformer, switched dc circuits through convert_IVP (series switch, '
                             'shorting switch, two capacitors paralleled, RLC ring-down; no / nc); 25% of the cases with some R, C, L values '
                             'symbolic; waveforms step, dc, ac, exp, t*exp, ramp, delayed step/exp, '
@@ -688,6 +762,40 @@ def run(chk, replay=None):
                 chk.count('reported-skipped', 'U %s:%s' % (ty, type(ex).__name__))
         return sigs, rep
 
+    def model_solvable(case):
+        """is the netlist inside the property's quantifier?  The C01 model's ivp MNA system is non-singular at a generic
+        rational point and, when a whole-axis (dc / ac) source must define the state before t = 0 (no initial conditions
+        given), the steady-state system (dc: capacitors open, inductors short; ac: at the source's angular frequency) is
+        non-singular too.  -> (bool, reason)"""
+        def with_src(arg):
+            out = []
+            for l in case['lines']:
+                w = l.split(' ')
+                out.append(' '.join(w[:3] + [arg]) if len(w) > 3 and w[3] == 'sig' else l)
+            return ' || '.join(out)
+        if not any(drv.ask1('mna.solve ivp %s || %s' % (sp, with_src('step 1'))).startswith('ok') for sp in ('7/3', '11/5')):
+            return False, 'ivp-system-singular'
+        if not case['has_ic']:
+            omegas, has_dc = set(), False
+            for l in case['lines']:
+                w = l.split(' ')
+                if len(w) > 3 and w[3] == 'sig':
+                    for j in range(4, len(w)):
+                        if w[j] == 'pre' and j + 3 < len(w) + 0:
+                            p = w[j + 3]
+                            if ',' in p:
+                                omegas.add(abs(Fraction(p.split(',')[1])))
+                            elif Fraction(p) == 0:
+                                has_dc = True
+                            else:
+                                return False, 'pre-history-not-steady'
+            if has_dc and not drv.ask1('mna.solve dc || %s' % with_src('dc 1')).startswith('ok'):
+                return False, 'no-dc-steady-state'
+            for om in sorted(omegas):
+                if not drv.ask1('mna.solve ac %s || %s' % (fstr(om), with_src('ac 1'))).startswith('ok'):
+                    return False, 'no-ac-steady-state'
+        return True, 'solvable'
+
     def one(case, idx):
         smp = Sampler(rng, S)
         key_lines = tuple(case['lines'])
@@ -703,9 +811,17 @@ def run(chk, replay=None):
             with common.time_limit(40):
                 sigs, rep = lcapy_signals(case, smp)
         except Skip as ex:
-            chk.case(key_lines, ex.args[0] == 'nan-in-result')
+            is_nan = ex.args[0] == 'nan-in-result'
+            if is_nan:
+                solvable, why = model_solvable(case)
+                if not solvable:
+                    # outside the quantifier ("all solvable netlists"): e.g. a dc current source into a capacitor with no
+                    # dc path has no state before t = 0; Lcapy's nan is then not a response returned in closed form
+                    is_nan = False
+                    ex.args = ('unsolvable-nan:' + why,) + tuple(ex.args[1:])
+            chk.case(key_lines, is_nan)
             chk.count('degenerate', ex.args[0])
-            if ex.args[0] == 'nan-in-result':
+            if is_nan:
                 ncex[0] += 1
                 kinds = sorted({ctype(l.split()[0]) for l in case['lines']})
                 chk.counterexample({'kind': 'nan-result', 'delayed_source': any(w in ('dstep', 'dexp', 'ddelta') for w in case['waves']),
@@ -714,7 +830,7 @@ def run(chk, replay=None):
                                     'lcapy': '%s = nan' % ex.args[1], 'spec': 'a returned response must be a time function satisfying the circuit laws',
                                     'component_kinds': kinds},
                                    'Lcapy returned nan for %s' % ex.args[1])
-            if ex.args[0] in ('not-canonicalised', 'nan-in-result', 'nan-after-substitution', 'free-symbols-left') and len(chk.coverage['correspondence']['diagnostics']) < 12:
+            if (ex.args[0] in ('not-canonicalised', 'nan-in-result', 'nan-after-substitution', 'free-symbols-left') or ex.args[0].startswith('unsolvable-nan')) and len(chk.coverage['correspondence']['diagnostics']) < 12:
                 chk.coverage['correspondence']['diagnostics'].append('%s: %s | %s | subs %s' % (ex.args[0], ex.args[1][:200], '; '.join(case['lcapy']), case.get('subs')))
             return
         except common.TimeLimit:
@@ -917,11 +1033,19 @@ def run(chk, replay=None):
                 if fn.endswith('.json'):
                     one(json.load(open(os.path.join(corpus_dir, fn)))['case'], idx)
                     idx += 1
-        for _ in range(ncases):
+        n_rc = 6 if quick else 60          # every run starts with the repeated complex-conjugate family (all variants)
+        rc_variants = ['cascade', 'resonant', 'resonant-parallel', 'resonant', 'cascade', 'resonant']
+        for k in range(ncases):
             if time.time() - t0 > budget:
                 chk.coverage['stopped_on_budget_after'] = idx
                 break
-            case = gen_case(rng)
+            if k < n_rc:
+                B.symbolic = False
+                ic_k = (k % 4 == 3)
+                case = gen_repeated_complex(rng, ic_k, CAUSAL_KINDS, rc_variants[k % len(rc_variants)])
+                case['whole_axis'] = False
+            else:
+                case = gen_case(rng)
             if case is not None and 'switched' in case:
                 case = resolve_switched(case)
             if case is None:
